@@ -20,7 +20,9 @@ def prelude(kind):
     same = A.FuncStmt("same", [V("p"), V("q")], False, [
         A.If([(A.Bin("!=", A.Call(A.Prop(V("p"), "type", True), []), A.Call(A.Prop(V("q"), "type", True), [])), [A.Return(S("-"))])], None),
         A.If([(A.Bin("||", A.Bin("==", A.Call(A.Prop(V("p"), "type", True), []), S("list")), A.Bin("==", A.Call(A.Prop(V("p"), "type", True), []), S("object"))),
-               [A.If([(A.Bin("===", V("p"), V("q")), [A.Return(S("="))])], None), A.Return(S("x"))])], None),
+               # `===` and `!==` must agree with each other ("!" / "?" mark a disagreement)
+               [A.If([(A.Bin("===", V("p"), V("q")), [A.If([(A.Bin("!==", V("p"), V("q")), [A.Return(S("!"))])], None), A.Return(S("="))])], None),
+                A.If([(A.Bin("!==", V("p"), V("q")), [A.Return(S("x"))])], None), A.Return(S("?"))])], None),
         A.Return(S("-"))])
     if kind == "list":
         elems = A.Bin("+", A.Bin("+", A.Bin("+", A.lst(V("a"), V("b"), V("c")), V("a")), V("b")), V("c"))
